@@ -442,9 +442,45 @@ def worker(job):
     return shard
 
 
+def double_else_sources():
+    """A case with two clauses that both carry `else` has no single clause 'whose pattern matched' when the input stops being a prefix of every
+    pattern: it must be a diagnosed error (enumerated: plain / greedy, own clause / combined with a pattern, empty / action / consuming bodies)."""
+    bodies = ["{ }", "{ m = 2; }", "{ m = 3; \"q\"; }"]
+    out = []
+    for greedy in ("", "greedy "):
+        for first in ("else", "\"b\", else", "else, \"b\""):
+            for second in ("else", "\"c\", else"):
+                for b1 in bodies:
+                    for b2 in bodies[1:]:
+                        out.append("out int m = 0;\nparser {\n    %scase {\n        \"a\" -> { m = 1; }\n        %s -> %s\n        %s -> %s\n    }\n    \"z\";\n}\n"
+                                   % (greedy, first, b1, second, b2))
+    return out
+
+
+def double_else_worker(job):
+    src, known = job
+    shard = Shard()
+    o = front.compile_src(src, ["-O1"])
+    shard.event("evaluations")
+    shard.event("double_else_cases")
+    if o.accepted:
+        sig = "c08:two-else-clauses-accepted"
+        if sig in known:
+            shard.known_hits[sig] += 1
+        else:
+            shard.failures.append({"sig": sig, "what": "a case with two else clauses was accepted (one of them is dropped silently):\n" + src, "replay": {"source": src, "argv": ["-O1"]}})
+    elif o.kind == "crash":
+        shard.failures.append({"sig": "c08:two-else-clauses-crash", "what": "%r\n%s" % (o, src), "replay": {"source": src, "argv": ["-O1"]}})
+    else:
+        shard.nontriv(src)
+    return shard
+
+
 def main(ctx):
     quick = ctx.tier == "quick"
     known = tuple(ctx.open_keys)
+    de = double_else_sources()
+    ctx.pmap(double_else_worker, [(s_, known) for s_ in (de[ctx.seed % 3::3] if quick else de)])
     # open known findings are re-run from their saved replay (must still fail; reported as stale otherwise)
     for key, entry in sorted(ctx.open_keys.items()):
         rp = entry["replay"]
